@@ -707,6 +707,10 @@ def index_within_len(b, idx, seqkey):
 def discharge(site, F=None):
     """returns a reason string if the panic site is provably unreachable / safe by a recognised guard, else None"""
     b = site.body
+    if F is not None:
+        b = od.pruned_body(F, b)
+        if site.bb not in b.reachable:
+            return "G0: only reachable through the success edge of a call that always returns Err"
     t = site.term
     k = site.kind
     if k.startswith("assert:"):
@@ -741,6 +745,9 @@ def discharge(site, F=None):
             return None
         if kind.startswith("Overflow(Sub"):
             l, r = ops
+            for op2, x, y in facts_at(b, site.bb):
+                if (op2 in ("Ge", "Gt") and same_value(b, x, l) and same_value(b, y, r)) or (op2 in ("Le", "Lt") and same_value(b, x, r) and same_value(b, y, l)):
+                    return "G4: dominated by a test that the minuend is not smaller than the subtrahend"
             cr = const_int(b, r)
             if cr is not None:
                 rng = induction_range(b, l)
